@@ -196,3 +196,24 @@ func (m *model) describe(now int64) string {
 	}
 	return fmt.Sprintf("window %d: %d of %d slots used; waiters by rank: [%s]; queue size %d", k, m.rel[k], m.quota, strings.Join(parts, " "), m.size)
 }
+
+// clone / adopt: a copy of the model to try an order of two simultaneous events on, and taking such a copy over.
+func (m *model) clone() *model {
+	c := *m
+	c.rel = map[int64]int{}
+	for k, v := range m.rel {
+		c.rel[k] = v
+	}
+	c.ws = make([]*mw, len(m.ws))
+	for i, w := range m.ws {
+		cp := *w
+		c.ws[i] = &cp
+	}
+	return &c
+}
+
+func (m *model) adopt(o *model) {
+	alive := m.alive
+	*m = *o
+	m.alive = alive
+}
